@@ -4,7 +4,7 @@ cd "$(dirname "$0")/.."
 tier=${1:-quick}
 for p in $(python3 -c "import json;print(' '.join(c['property_id'] for c in json.load(open('MANIFEST.json'))['checks']))"); do
   s=$(date +%s)
-  timeout 1500 ./check $p $tier > /tmp/runall_$p.log 2>&1
+  timeout ${RUNALL_TIMEOUT:-1500} ./check $p $tier > /tmp/runall_$p.log 2>&1
   rc=$?
   e=$(date +%s)
   echo "$p rc=$rc $((e-s))s $(grep -c VIOLATION /tmp/runall_$p.log) violations; $(tail -1 /tmp/runall_$p.log | cut -c1-160)"
